@@ -108,7 +108,7 @@ func TestParams(t *testing.T) {
 			return c
 		},
 		Check: checkParams, Require: []string{"params/generic"},
-		Rule:  "hook: sufficientTrailingZeros = min{s : 3^s >= len*target}, targetHash = floor(3^243/(len*target+1)), toInt = reference integer, over message lengths 8..308, targets around powers of three, random, small and maximal (len*target <= 2^64-1) and hashes with 0..243 trailing zeros; all non-trivial; distinct by case",
+		Rule: "hook: sufficientTrailingZeros = min{s : 3^s >= len*target}, targetHash = floor(3^243/(len*target+1)), toInt = reference integer, over message lengths 8..308, targets around powers of three, random, small and maximal (len*target <= 2^64-1) and hashes with 0..243 trailing zeros; all non-trivial; distinct by case",
 	})
 }
 
@@ -137,9 +137,10 @@ func TestParamsExactPowers(t *testing.T) {
 // ---- lane test ----
 
 // laneKinds: how each of the 64 lanes is built relative to (s, T)
-//   0 random hash                      3 exactly s-1 zeros, value just above T (d < lx+1: must not be required, may be rejected)
-//   1 >= s trailing zeros              4 exactly s-1 zeros, value at/just below T (d >= lx+1: must be found)
-//   2 fewer than s-1 zeros             5 exactly s-1 zeros, random value
+//
+//	0 random hash                      3 exactly s-1 zeros, value just above T (d < lx+1: must not be required, may be rejected)
+//	1 >= s trailing zeros              4 exactly s-1 zeros, value at/just below T (d >= lx+1: must be found)
+//	2 fewer than s-1 zeros             5 exactly s-1 zeros, random value
 type laneCase struct {
 	DataLen int    `json:"data_len"`
 	Target  uint64 `json:"target"`
